@@ -196,6 +196,7 @@ CUpdate(e) ==
 HeardUpdate(e) ==
   CASE e.ev = "SimInit" -> departed' = {} /\ heard' = {}
     [] e.ev = "Depart" -> departed' = departed \cup {e.node} /\ UNCHANGED heard
+    [] e.ev = "Restart" -> departed' = departed \ {e.node} /\ UNCHANGED heard
     [] e.ev = "NodeOp" /\ Listed(e.post) -> heard' = heard \cup {<<e.n, e.claim.node>>} /\ UNCHANGED departed
     [] e.ev = "NodeOp" /\ ~Listed(e.post) -> heard' = heard \ {<<e.n, e.claim.node>>} /\ UNCHANGED departed
     [] OTHER -> UNCHANGED <<departed, heard>>
